@@ -420,14 +420,14 @@ ProfList = T.List(S_.PROFR)
 Contract(
     "workload.strategy.ExecutionStrategy.__init__",
     params={"self": S_.STRAT, "resources": T.Ref(RESOURCES), "batch_size": T.INT, "runtime": ETy},
-    trusted=True,
+    drops=("self._id = uuid.UUID(", "self._hash = hash("),
     modifies=lambda c: {c.pre.fld_arr(STRAT, f)[0]: [c.arg("self")] for f in ("_resources", "_batch_size", "_runtime", "_id", "_hash")},
     ensures=lambda c: z3.And(
         c.f(c.arg("self"), STRAT, "_resources") == c.arg("resources"),
         c.f(c.arg("self"), STRAT, "_batch_size") == c.arg("batch_size"),
         c.f(c.arg("self"), STRAT, "_runtime") == c.arg("runtime"),
     ),
-    note="ExecutionStrategy.__init__: field assignments plus a random id (uuid from random.getrandbits); body not executed because of uuid/hash",
+    note="ExecutionStrategy.__init__: verified; dropped: the random id and its hash (uuid.UUID(int=random.getrandbits(128)), hash(id)) -- _id/_hash are left unconstrained",
     props=P04 + ("C03",),
 )
 
